@@ -83,17 +83,23 @@ def avgAlleles (rows : CRows) (L : Int) : Float :=
   let c := avgAllelesCounts rows L
   Float.ofNat c.1 / Float.ofNat c.2
 
-/-- `CountDifferences()`: (all differences in order of first appearance, per-row maps `REFNEW ↦ count`
-as key-sorted lists) -/
-def countDifferences (rows : CRows) : List (Byte × Byte) × List (List ((Byte × Byte) × Nat)) :=
-  match rows with
+/-- `CountDifferences()` on an alignment with at least one row: (all differences in order of first
+appearance, per-row maps `REFNEW ↦ count` as association lists in order of first appearance) -/
+def countDifferences1 (f : String × Seq) (rest : CRows) : List (Byte × Byte) × List (List ((Byte × Byte) × Nat)) :=
+  match rest with
   | [] => ([], [])
-  | [_] => ([], [])
-  | f :: rest =>
+  | _ =>
     let perRow := rest.map fun r => (f.2.zip r.2).filter fun p => p.1 != p.2
     let all := perRow.flatten.foldl (fun acc p => if acc.contains p then acc else acc ++ [p]) []
     (all, perRow.map fun ds =>
       (ds.foldl (fun acc p => if acc.any (·.1 == p) then acc.map (fun q => if q.1 == p then (q.1, q.2 + 1) else q) else acc ++ [(p, 1)]) []))
+
+/-- `CountDifferences()`; `none` = run-time panic: without any sequence the code evaluates
+`make([]map[string]int, a.NbSequences()-1)` with length −1 -/
+def countDifferences (rows : CRows) : Option (List (Byte × Byte) × List (List ((Byte × Byte) × Nat))) :=
+  match rows with
+  | [] => none
+  | f :: rest => some (countDifferences1 f rest)
 
 /-- `numuniques[i]++` on a counter slice -/
 def incrAt : List Nat → Nat → List Nat
